@@ -727,6 +727,32 @@ pub fn real_traces() -> Vec<Vec<Op>> {
 }
 
 pub fn run(ctx: &Ctx) {
+    // long-lived watchers under the real clock, in the background of everything below
+    let longevity = if crate::engine::loopback_multicast_works() {
+        Some(std::thread::spawn(|| {
+            let a = std::thread::spawn(|| super::longev::two_lifetimes("C20", false));
+            let mut f = super::longev::two_lifetimes("C20", true);
+            f.extend(a.join().unwrap_or_default());
+            f
+        }))
+    } else {
+        None
+    };
+    run_spaces(ctx);
+    if let Some(h) = longevity {
+        let f = h.join().unwrap_or_default();
+        let mut t = Tally::default();
+        t.evals += 2;
+        t.nontrivial += 2;
+        t.transitions += 6;
+        t.outcome(if f.is_empty() { "expired-on-time" } else { "socket-expiry-bad" });
+        ctx.merge(t);
+        ctx.violations(f);
+        ctx.space("long-lived watchers (sync and tokio, in the background of the other spaces): two peers heard once with TTL 2 and TTL 8 half a second after start-up; both listed after 1 s, only the second after 3 s, none after 10.4 s (the watcher's own 5-second refresh polls fall in between)", 2, "complete for the two services");
+    }
+}
+
+fn run_spaces(ctx: &Ctx) {
     let thorough = ctx.eff_tier() == crate::engine::Tier::Thorough;
     ctx.set_rule("explicit-state search to the fixpoint over 27 operations (add-authoritative, add-cached with TTL 0/1/2/1000 or the cache-flush bit, remove, clear, tick 1 s) on three records at svc.local and x.svc.local; states deduplicated by (per record: absent / authoritative / cached with 1 or 2 s left / cached long / expired; owners touched since the last clear); every transition out of every state is executed on a fresh real store (virtual clock through the verif_advance seam) and observed immediately and after 1, 2 and 3 further ticks (remaining lifetimes are hidden state a single query cannot show); all 12 (name, filter) queries are judged against the reference store at each observation. thorough: additionally every history of length <= 6 without deduplication. The seam is validated by traces replayed with real sleeps. non-trivial = state holds a cached record");
     ctx.assume("clock seam: verif_advance(1) moves stored deadlines one second into the past; real time spent on a path is microseconds, every comparison is a whole second away from a boundary except exact expiry, which is decided the same way for any real delay >= 0; paths slower than 250 ms are re-run and a violation is reported only if it reproduces");
